@@ -76,6 +76,12 @@ class MADisjunctiveConditionsRemover(DisjunctiveConditionsRemover):
             # implications and equivalences count as disjunctive conditions and their
             # disjunctive normal form contains negations
             new_kind.set_conditions_kind("NEGATIVE_CONDITIONS")
+        if new_kind.has_negative_conditions():
+            # the normal form pushes negations through quantifiers
+            if problem_kind.has_existential_conditions():
+                new_kind.set_conditions_kind("UNIVERSAL_CONDITIONS")
+            if problem_kind.has_universal_conditions():
+                new_kind.set_conditions_kind("EXISTENTIAL_CONDITIONS")
         new_kind.unset_conditions_kind("DISJUNCTIVE_CONDITIONS")
         return new_kind
 
